@@ -561,8 +561,27 @@ func (g *loggingGetter) visitSequence(roots []cid.Cid) *walkLog {
 
 // ---- error classes -------------------------------------------------------------------------
 
+type cappedBuffer struct {
+	bytes.Buffer
+	max  int
+	full bool
+}
+
+func (b *cappedBuffer) Write(p []byte) (int, error) {
+	if b.Len()+len(p) > b.max {
+		b.full = true
+		return 0, errors.New("destination full")
+	}
+	return b.Buffer.Write(p)
+}
+
+// errPanicked stands for a runtime panic recovered around a go-car call
+var errPanicked = errors.New("panicked")
+
 func travErr(err error) Val {
 	switch {
+	case err == errPanicked:
+		return VT("panic")
 	case err == nil:
 		return VT("nil")
 	case errors.Is(err, carv2.ErrSizeMismatch):
@@ -661,20 +680,42 @@ func runTrav(c *Ctx, tc *travCase) (traces Val, obs Val) {
 			return VL{t1, (&walkLog{}).val(true), refWalkV2(store, tc)}, VL{VT("ctor"), travErr(err)}
 		}
 		cur = &walkLog{}
-		var buf bytes.Buffer
-		n, werr := w.WriteTo(&buf)
+		// the destination refuses to grow past 64 MiB: a padding above the allocation limit makes
+		// today's code panic before writing; a writer that streams it instead must not exhaust memory
+		buf := cappedBuffer{max: 16 << 20}
+		var n int64
+		var werr error
+		func() {
+			defer func() {
+				if r := recover(); r != nil {
+					n, werr = 0, errPanicked
+				}
+			}()
+			n, werr = w.WriteTo(&buf)
+		}()
 		// any error other than the two sentinels is reported as class "other"; the model prints
 		// the same class for a failed walk and for index.New rejecting the codec, and produces
 		// the same bytes in both cases, so ok=false is a safe reading of "other"
-		walkOK := werr == nil || errors.Is(werr, carv2.ErrSizeMismatch) || errors.Is(werr, carv2.ErrOffsetImpossible)
+		walkOK := werr == nil || werr == errPanicked || errors.Is(werr, carv2.ErrSizeMismatch) || errors.Is(werr, carv2.ErrOffsetImpossible)
+		if buf.full { // never reached by the model (it panics first): report a short prefix only
+			buf.Truncate(64)
+		}
 		pre, idx := splitIndex(buf.Bytes())
 		return VL{t1, cur.val(walkOK), refWalkV2(store, tc)}, VL{VT("ok"), VB(pre), idxObs(idx, tc.store, ties), VN(uint64(n)), travErr(werr)}
 	case 2:
 		ls := loggingLinkSystem(store, &cur)
 		path := filepath.Join(c.Work, "ttf.car")
 		os.Remove(path)
-		err := carv2.TraverseToFile(ctx, &ls, tc.roots[0], tc.sel.node(), path, tc.opts.v2()...)
-		walkOK := err == nil || errors.Is(err, carv2.ErrSizeMismatch) || errors.Is(err, carv2.ErrOffsetImpossible)
+		var err error
+		func() {
+			defer func() {
+				if r := recover(); r != nil {
+					err = errPanicked
+				}
+			}()
+			err = carv2.TraverseToFile(ctx, &ls, tc.roots[0], tc.sel.node(), path, tc.opts.v2()...)
+		}()
+		walkOK := err == nil || err == errPanicked || errors.Is(err, carv2.ErrSizeMismatch) || errors.Is(err, carv2.ErrOffsetImpossible)
 		data, _ := os.ReadFile(path)
 		os.Remove(path)
 		pre, idx := splitIndex(data)
